@@ -15,6 +15,7 @@ import Proofs.DbUncached
 import Proofs.DbLift
 import Proofs.DbInterleave
 import Proofs.DbTable
+import Proofs.DbStable
 import HapModel.Gen.Services
 namespace Hap.C17
 open Hap Hap.Db
@@ -249,6 +250,96 @@ theorem C17_interleaved_resolution (isBridge : Bool) (defs : List (SvcDef V P)) 
   have hg := (C17_interleaved_invariant isBridge defs ops).1
   ⟨listing_once _ hg, resolve_listed _ hg aid iid c h⟩
 
+/-! ### every history through the public API (construction, mutation, reads in any order) -/
+
+/-- **Unified histories.**  From a freshly constructed accessory or bridge, any sequence of
+    construction operations, value / metadata mutations (set_value, controller write,
+    override_properties, display name, getter, availability, primary service) and reads of both
+    kinds (GET /accessories through the caches, GET /characteristics) leads to a well-formed
+    database: aids distinct and ≠ the bridge's own, objects distinct, managers consistent. -/
+theorem C17_all_histories_invariant (isBridge : Bool) (defs : List (SvcDef V P)) (ops : List (OpU V P)) :
+    ((Db.init isBridge defs).runU ops).Good :=
+  runU_good _ ops (init_good isBridge defs)
+
+/-- … in which every listed pair is listed once and resolves to the same object for reads,
+    writes and events. -/
+theorem C17_all_histories_resolution (isBridge : Bool) (defs : List (SvcDef V P)) (ops : List (OpU V P))
+    (aid iid c : Nat)
+    (h : ((some aid, some iid), c) ∈ ((Db.init isBridge defs).runU ops).listing) :
+    let s := (Db.init isBridge defs).runU ops
+    s.listing.Pairwise (fun x y => x.1.2 ≠ none → x.1 ≠ y.1) ∧
+    s.resolveRead aid iid = some c ∧ s.resolveWrite aid iid = some c ∧
+    s.eventId c = some (some aid, some iid) :=
+  have hg := C17_all_histories_invariant isBridge defs ops
+  ⟨listing_once _ hg, resolve_listed _ hg aid iid c h⟩
+
+/-- **Identifiers are stable in every accessory of every history.**  Split any unified history
+    in two.  An accessory registered under `k` after the first part is still registered under `k`
+    after the second part unless the second part removes it (`k = 1`, the top-level accessory,
+    cannot be removed); it is the same accessory (same aid, its objects in the same order followed
+    by those added since); its iid counter has not gone back, every binding with an iid within
+    the earlier counter value already existed for the same object, and therefore an iid that had
+    been issued to an object `o` is never held by another object later — whether or not `o` was
+    removed from the manager in between. -/
+theorem C17_iid_stable_all_histories (isBridge : Bool) (defs : List (SvcDef V P)) (pre post : List (OpU V P))
+    (k : Nat) (a1 : Accessory V P)
+    (h1 : ((Db.init isBridge defs).runU pre).accAt k = some a1)
+    (hpost : k = STANDALONE_AID ∨ ∀ op ∈ post, op ≠ OpU.con (.removeAccessory k)) :
+    ∃ a2, (((Db.init isBridge defs).runU pre).runU post).accAt k = some a2 ∧
+      a2.aid = a1.aid ∧ a1.objList <+: a2.objList ∧
+      a1.iidm.counter ≤ a2.iidm.counter ∧
+      (∀ o i, a2.iidm.iids o = some i → i ≤ a1.iidm.counter → a1.iidm.iids o = some i) ∧
+      (∀ o o' i, a1.iidm.iids o = some i → a2.iidm.iids o' = some i → o' = o) := by
+  have hg := C17_all_histories_invariant isBridge defs pre
+  obtain ⟨a2, e2, n, e3, e4⟩ := runU_noReissue _ hg post k a1 h1 hpost
+  exact ⟨a2, e2, e3, e4, n.1, n.2, fun o o' i e1 e3 => n.same_object (accAt_good hg h1) e1 e3⟩
+
+/-- **A listed pair denotes the same object for ever.**  If GET /accessories lists (aid, iid) for
+    object `o` at one point of a history and lists (aid, iid) again at a later point — the
+    accessory not having been removed from the bridge in between — it is for the same object `o`:
+    removing objects and adding new ones never moves an identifier to another object. -/
+theorem C17_listed_pair_stable (isBridge : Bool) (defs : List (SvcDef V P)) (pre post : List (OpU V P))
+    (aid iid o o' : Nat)
+    (h1 : ((some aid, some iid), o) ∈ ((Db.init isBridge defs).runU pre).listing)
+    (h2 : ((some aid, some iid), o') ∈ (((Db.init isBridge defs).runU pre).runU post).listing)
+    (hpost : aid = STANDALONE_AID ∨ ∀ op ∈ post, op ≠ OpU.con (.removeAccessory aid)) :
+    o' = o := by
+  have hg1 := C17_all_histories_invariant isBridge defs pre
+  have hg2 : (((Db.init isBridge defs).runU pre).runU post).Good := runU_good _ post hg1
+  obtain ⟨a1, e1, b1, _⟩ := listing_binding _ hg1 aid iid o h1
+  obtain ⟨a2', e2', b2, _⟩ := listing_binding _ hg2 aid iid o' h2
+  obtain ⟨a2, e2, _, _, _, _, same⟩ := C17_iid_stable_all_histories isBridge defs pre post aid a1 e1 hpost
+  rw [e2] at e2'
+  cases e2'
+  exact same o o' iid b1 b2
+
+/-- **A listed pair is readable and the read returns that characteristic's value.**  In a
+    well-formed database (every state of every unified history), for a pair (aid, iid) that
+    GET /accessories lists for object `o`: the read path finds the accessory registered under
+    `aid`, whose structure holds `o` and whose manager maps `iid` to `o`; the entry a
+    GET /characteristics produces for the pair is the failure entry when that (bridged)
+    accessory is unavailable, else it carries the current value of the characteristic object `o`
+    (its getter's outcome when a getter is installed, else the stored value; failure when `o` is
+    a service). -/
+theorem C17_listed_pair_read (s : Db V P) (hs : s.Good) (aid iid o : Nat)
+    (h : ((some aid, some iid), o) ∈ s.listing) (gout : Option V) :
+    ∃ a, a ∈ s.accList ∧ a.aid = some aid ∧ o ∈ a.objList ∧ s.accFor aid = some a ∧
+      a.iidm.getObj iid = some o ∧
+      (s.readOne aid iid gout).1 =
+        some (if aid ≠ STANDALONE_AID ∧ a.available = false then failEntry aid iid
+              else mkEntry aid iid ((a.findChar o).bind (fun c => if c.getter then gout else some c.value))) := by
+  obtain ⟨a, m1, m2, m3, m4, m5, m6⟩ := entrySpec_listed s hs aid iid o h gout
+  exact ⟨a, m1, m2, m3, m4, m5, by rw [(Db.readOne_spec s aid iid gout).1]; exact m6⟩
+
+/-- … and `findChar` on the object of a characteristic that sits in the accessory's structure
+    returns exactly that characteristic (objects are pairwise distinct), so the value read for a
+    listed characteristic pair is the value of the very characteristic the listing shows. -/
+theorem C17_listed_char_found (s : Db V P) (hs : s.Good) (a : Accessory V P) (ha : a ∈ s.accList)
+    (c : Char V P) (hc : c ∈ a.chars) : a.findChar c.obj = some c := by
+  rw [Db.accList_eq, List.mem_map] at ha
+  obtain ⟨ka, hka, rfl⟩ := ha
+  exact findChar_of_mem ka.2 (hs.accs ka hka).2.2.1 c hc
+
 /-- construction never fills a representation cache, so the state after a construction
     history satisfies C11's cache invariant trivially (C17 histories are observed at the end) -/
 theorem C17_fresh_service_uncached (o : Nat) (d : SvcDef V P) :
@@ -335,6 +426,16 @@ def demo : Db Unit Unit :=
      .removeAccessory 2, .addAccessory none false [info]]
 
 example : demo.keys = [3, 2] := by decide
+/-- a unified history on the bridge: the accessory under aid 2 survives reads, a value change and
+    a remove / re-assign of its object 9; the re-assigned object gets the fresh iid 8 (the
+    counter after construction was 7) and iid 6, once object 9's, is held by nobody -/
+example :
+    let s1 := (Db.init true [info] : Db Unit Unit).runU [.con (.addAccessory none false [info, bulb])]
+    let s2 := s1.runU [.db (.readAll true (fun _ => none)), .con (.removeObj 2 9), .db (.setValue 9 (some ())),
+                       .con (.assign 2 9), .db (.readChars [(2, 6), (2, 8)] (fun _ => none))]
+    (s1.accAt 2).map (fun a => (a.iidm.counter, a.iidm.iids 9)) = some (7, some 6) ∧
+    (s2.accAt 2).map (fun a => (a.iidm.counter, a.iidm.iids 9, a.iidm.objs 6)) = some (8, some 8, none) := by
+  decide
 example : ((Db.init true [info] : Db Unit Unit).run
     [.addAccessory none false [info, bulb], .removeObj 2 9, .assign 2 9]).listing.map (·.1)
       = [(some 1, some 1), (some 1, some 2), (some 1, some 3), (some 1, some 4),
